@@ -53,6 +53,39 @@ def hetero_stacks(rnd, tier):
     return progs
 
 
+def fill_stacks(rnd, tier):
+    """C04: pieces masked with different fill values - one of them a value
+    that is valid data in another piece - or with NaN as fill value: the mask
+    of the stack is the concatenation of the masks, whatever is held under
+    them."""
+    def sl(a, b):
+        return {'k': 'slice', 'h': [a is not None, b is not None, False],
+                'v': [a or 0, b or 0, 0]}
+    nowhere = {'h': False, 'shape': [], 'bits': []}
+
+    def mk(src, k, v, fill):
+        return {'act': 'mask', 'src': src, 'others': [], 'args': {
+            'p': [{'k': k, 'v': v}], 'where': nowhere,
+            'usedims': {'h': False, 'v': []}, 'coords': False, 'fill': fill}}
+    progs = []
+    # (template, dimension, threshold of the first piece, fill of the first
+    # piece = a valid value of the second piece, threshold of the second)
+    for t, d, lo, f1, hi in (('T1', 't', 102, 108, 110), ('T1', 'x', 101, 104, 110),
+                             ('T4', 't', 401, 405, 406), ('T7', 't', 703, 725, 730)):
+        for fills in ((f1, -999), ('nan', 'nan'), (-999, -999)):
+            steps = [{'act': 'slice', 'src': 1, 'others': [], 'args': {
+                'sels': [{'d': d, 's': sl(None, 1)}], 'newdim': 'POINTS'}},
+                {'act': 'slice', 'src': 1, 'others': [], 'args': {
+                    'sels': [{'d': d, 's': sl(1, None)}],
+                    'newdim': 'POINTS'}},
+                mk(2, 'less', lo, fills[0]), mk(3, 'greater', hi, fills[1])]
+            for src, others in ((4, [5]), (5, [4]), (4, [5, 4])):
+                steps.append({'act': 'stack', 'src': src, 'others': others,
+                              'args': {'dim': d, 'aslist': len(others) > 1}})
+            progs.append({'templates': [t], 'steps': steps})
+    return progs
+
+
 UNLIM = {'T1': ['t'], 'T2': ['t'], 'T3': ['t'], 'T5': ['time'], 'T7': ['t']}
 
 
@@ -333,6 +366,7 @@ def run(prop, tier, extra=None):
     if prop == 'C04':
         progs += hetero_stacks(rnd, tier)
         progs += mfopen_stacks(rnd, tier)
+        progs += fill_stacks(rnd, tier)
     if prop == 'C03':
         progs += multidim_applies(rnd, tier)
         progs += stringform_applies(rnd, tier)
